@@ -24,7 +24,14 @@ func zzDecodeCursor(c string) (*pageToken, error) {
 	return nil, errors.New("failed to decode cursor")
 }
 
-func zzKey(tag string) string { return "k" + vStringLen(tag, 1) }
+// zzKey: a feature id "k" followed by 0..keylen arbitrary bytes (keylen 1: exactly one byte). With keylen 2 ids of
+// different lengths, one being a prefix of another, are covered as well.
+func zzKey(tag string) string {
+	if n := vParam("keylen"); n > 1 {
+		return "k" + vStringN(tag, n)
+	}
+	return "k" + vStringLen(tag, 1)
+}
 
 func zzPromptSet(n int) (*featureSet[*serverPrompt], []string) {
 	fs := newFeatureSet(func(p *serverPrompt) string { return p.prompt.Name })
